@@ -74,6 +74,12 @@ def run(tier):
     vlib.vh(["repl", "cluster", "--seed", vlib.seed() * 5 + 2, "--n", 3000 if thorough else 300, "--out", tr])
     vlib.validate_runs(rep, "ReplTrace", "ReplTrace", tr, wd, "cluster", dev_cfgs=DEV, describe=describe, strip=("nodes",))
     os.remove(tr)
+    # two directed shapes on real nodes with instant delivery: a keep-alive (the same SET .. PX again before it runs out, read
+    # between the two deadlines) and a node that lags 70 000 writes behind, receives only the newest state and then writes
+    tr = os.path.join(wd, "shapes.ndjson")
+    vlib.vh(["repl", "shapes", "--out", tr])
+    vlib.validate_runs(rep, "ReplTrace", "ReplTrace", tr, wd, "shapes", dev_cfgs=DEV, describe=describe, strip=("nodes",))
+    os.remove(tr)
     # the simulator's replicas (src/simulator/multi_node.rs, anchored): its node glue under the step-by-step rules of
     # Replication.tla, and the whole MultiNodeSimulation (own network with delays, loss, partitions; broadcast or selective
     # gossip through the ring; own anti-entropy) under Converged + WinnerIsGreatestStamp + ServedIsState at the end
